@@ -1,0 +1,20 @@
+//go:build verif
+
+package logstore
+
+// Contracts for /verif (gvc). Comment-only file; see /verif/DESIGN.md §5 C20.
+
+//@ prop C20
+
+// The buffers the bloom-filter (skip index) of a data file is assembled in are pooled. The filters of a file are
+// addressed by block number from the start of the buffer, so a buffer goes back to the pool EMPTY: every column's
+// slice is cut to length zero in place (truncating a copy leaves the previous file's filters in front of the next
+// file's - block i would then be tested against a filter of another file and pruned although it holds the word).
+//@ func PutSkipIndexBuf
+// (Precondition: buf points to a slice VARIABLE, as GetSkipIndexBuf hands out - not into the element array of another
+// slice of slices; the verifier's heap keeps slice-valued elements and slice-valued cells of one sort in one map.)
+//@   requires buf != nil && objid(buf) > 0
+//@   call .Put
+//@     requires [buffer_returns_to_the_pool_empty] forall k int :: 0 <= k && k < len(deref(buf)) ==> len(deref(buf)[k]) == 0
+//@   loop 1
+//@     invariant deref(buf) == old(deref(buf)) && (forall k int :: 0 <= k && k <= rangeindex ==> len(deref(buf)[k]) == 0)
